@@ -212,14 +212,24 @@ where
         let chunk_size: usize = circuit.output_size().div_ceil(threads);
 
         thread::scope(|scope| {
+            #[cfg(feature = "verif-hooks")]
+            let mut verif_spawned: usize = 0;
             for (thread_idx, (scratch_thread, out_chunk)) in scratches
                 .iter_mut()
                 .zip(out[..circuit.output_size()].chunks_mut(chunk_size))
                 .enumerate()
             {
+                #[cfg(feature = "verif-hooks")]
+                {
+                    verif_spawned += 1;
+                }
                 // Capture chunk + thread scratch by move
                 scope.spawn(move || {
+                    #[cfg(feature = "verif-hooks")]
+                    let _verif_guard = crate::verif_hooks::worker_begin(crate::verif_hooks::SITE_EVAL, thread_idx);
                     for (idx, out_i) in out_chunk.iter_mut().enumerate() {
+                        #[cfg(feature = "verif-hooks")]
+                        crate::verif_hooks::verif_yield(crate::verif_hooks::SITE_EVAL, thread_idx, thread_idx * chunk_size + idx);
                         let (nodes, state_size) = circuit.get_circuit(thread_idx * chunk_size + idx);
 
                         if state_size == 0 {
@@ -230,6 +240,12 @@ where
                     }
                 });
             }
+            #[cfg(feature = "verif-hooks")]
+            crate::verif_hooks::verif_yield(
+                crate::verif_hooks::SITE_SPAWNED,
+                crate::verif_hooks::SITE_EVAL as usize,
+                verif_spawned,
+            );
         });
 
         for out_i in out.iter_mut().skip(circuit.output_size()) {
@@ -270,6 +286,8 @@ fn eval_level<M, R, G, BE: Backend>(
         for (j, node) in nodes_lvl.iter().enumerate() {
             match node {
                 Node::Cmux(in_idx, hi_idx, lo_idx) => {
+                    #[cfg(feature = "verif-hooks")]
+                    crate::verif_hooks::verif_yield(crate::verif_hooks::SITE_CMUX, crate::verif_hooks::worker(), j);
                     module.cmux(
                         next_level[j],
                         prev_level[*hi_idx],
